@@ -7,7 +7,7 @@ CORE = ["Base", "Strings", "Num", "Builtins", "Interp", "Machine", "Spec"]
 REFINE = CORE + ["HeapFacts", "Refine1", "Refine2", "Refine3", "Refine4"]
 PROPS = {
  "C02": dict(needs=REFINE + ["FuelMono", "LinkStack", "Scope"], gen=["GenStack"], slices=[("slices_core", "core_programs"), ("slices_core", "small_core"), ("slices_core", "spec_vs_machine")]),
- "C03": dict(needs=REFINE + ["RelA", "RelB", "RelC"], gen=[], slices=[("slices_lazy", "c03_bombs"), ("slices_core", "core_programs")]),
+ "C03": dict(needs=REFINE + ["RelA", "RelB", "RelC", "RunG", "ShortCircuit"], gen=[], slices=[("slices_lazy", "c03_bombs"), ("slices_core", "core_programs")]),
  "C05": dict(needs=REFINE + ["LinkStack", "Progress"], gen=["GenStack"], slices=[("slices_faults", "c05_ladders"), ("slices_core", "core_programs")]),
  "C07": dict(needs=REFINE + ["RunG", "Pure", "IOSpec"], gen=[], slices=[("slices_core", "io_trees")]),
  "C10": dict(needs=REFINE + ["RunG", "Exc", "Deep", "LinkErr"], gen=["GenErr"], slices=[("slices_lazy", "c10_faults"), ("slices_core", "core_programs")]),
@@ -17,9 +17,9 @@ PROPS = {
  "C08": dict(needs=["Base", "Num", "NumProofs", "Lex", "ParseProofs", "Strings", "Builtins", "Interp", "LinkNames"], gen=["GenParse", "GenNames", "GenIO"], slices=[("slices_text", "c08_codec"), ("slices_text", "c08_spellings")]),
  "C09": dict(needs=["Base", "Num", "NumProofs", "Lex", "ParseProofs"], gen=["GenParse"], slices=[("slices_text", "c09_parse")]),
  "C14": dict(needs=["Files", "FilesProofs", "LinkNames"], gen=["GenIO"], slices=[("slices_world", "c14_histories"), ("slices_world", "c14_faults")]),
- "C15": dict(needs=["ImpSearch", "ImportProofs"], gen=[], slices=[("slices_world", "c15_search"), ("slices_world", "c15_semantics")]),
+ "C15": dict(needs=["ImpSearch", "ImportProofs", "ImpLoad"], gen=[], slices=[("slices_world", "c15_search"), ("slices_world", "c15_semantics")]),
  "C06": dict(needs=CORE + ["Float", "Eq"], gen=[], slices=[("slices_values", "c06_eq")]),
- "C12": dict(needs=CORE + ["SeqProofs", "SliceReal"], gen=[], slices=[("slices_values", "c12_seq")]),
+ "C12": dict(needs=REFINE + ["SeqProofs", "SliceReal", "RunG", "SeqSpec"], gen=[], slices=[("slices_values", "c12_seq")]),
  "C16": dict(needs=CORE + ["RunG", "Codec", "Bits", "Utf"], gen=[], slices=[("slices_values", "c16_codecs")]),
  "C17": dict(needs=CORE + ["RunG", "Codec", "Bits", "LinkBits", "Float", "RoundProofs"], gen=["GenBitwise"], slices=[("slices_values", "c17_bits")]),
  "C18": dict(needs=CORE + ["PrintInt", "PrintDict"], gen=[], slices=[("slices_values", "c18_print"), ("slices_values", "c18_cli")]),
